@@ -12,21 +12,25 @@ ID = "C03"
 
 MANIFEST = {
     "level": "Bounded model checking by symbolic execution of the real edge constructors, v1 / v2 assignment, "
-             "explicit.link_from_to / link_directed / link_undirected (dontdup symbolic) and explicit.unlink (destroy "
-             "symbolic): from an arbitrary pool state satisfying the association invariant with well-formed two-ended "
+             "explicit.link_from_to / link_directed / link_undirected (dontdup symbolic), explicit.unlink (destroy "
+             "symbolic) and the four association mutators (Link.add_vertex / unlink_from, Vertex.add_to_link / "
+             "remove_from_link; None arguments included): from an arbitrary pool state satisfying the association invariant with well-formed two-ended "
              "links (ends may be None; all list orders, elements and argument aliasings are SMT variables) one symbolic "
              "call; afterwards EVERY vertex's ordered links, EVERY link's ordered ends, every universe list and the "
              "return value must equal the reference step relation written from the statement. Because the relation "
              "holds from every valid state, the observable graph after any history equals the reference model's "
              "(by induction), within the pool bound.",
-    "note": "Bounds: 3 vertices, 2 pool links (+1 created), lists <= 2 (quick) / 3 (thorough). Freedoms left by the "
-            "statement (not checked): position of a link in the list of a vertex that already was an end of it; which "
-            "joining link dontdup returns. Universe membership steps are C02's reference step. Trusted: pysym "
+    "note": "Bounds: 3 vertices, 2 pool links (+1 created), lists <= 2 (quick) / 3 (thorough). Freedom left by the "
+            "statement (not checked): position of a link in the list of a vertex that already was an end of it. A "
+            "dontdup call must hand back the first joining link in the first vertex's own link order (the reference "
+            "model's deterministic choice). Universe membership steps are C02's reference step. Trusted: pysym "
             "(validated per path on CPython), z3, the reference relations (80 lines).",
     "design_ref": "DESIGN.md 5 (C03), 4.2.1",
 }
 
-FAMILIES = ["ctor", "set_v1", "set_v2", "link_from_to", "link_directed", "link_undirected", "unlink"]
+FAMILIES = ["ctor", "set_v1", "set_v2", "link_from_to", "link_directed", "link_undirected", "unlink",
+            "unlink_from", "add_vertex", "add_to_link", "remove_from_link"]
+ASSOC = FAMILIES[7:]
 BOUNDS = {"quick": {"vertices": 3, "pool_links": 2, "pre_state_list_len": 2}, "thorough": {"vertices": 3, "pool_links": 2, "pre_state_list_len": 3}}
 TIME_BUDGET = {"quick": 420, "thorough": 1200}
 STUBS = ["uuid.uuid4 -> fresh distinct integer"]
@@ -41,11 +45,14 @@ def configs(tier):
     pools = [["DE", "UE"], ["TE", "SD"]] if tier == "quick" else [["DE", "UE"], ["TE", "SD"], ["DE", "DE"], ["UE", "TE"]]
     for pool in pools:
         for fam in FAMILIES:
-            if tier == "quick" and pool != ["DE", "UE"] and fam in ("link_directed", "link_undirected", "ctor"):
+            if tier == "quick" and pool != ["DE", "UE"] and fam in ["link_directed", "link_undirected", "ctor"] + ASSOC:
                 continue
             out.append({"family": fam, "pool": pool, "K": K})
     # unlink when a joining link names a further vertex (attached through add_vertex / add_to_link)
     out.append({"family": "unlink", "pool": ["DE", "UE"], "K": K, "third_end": True})
+    # dontdup with three pool links: the two vertices can list parallel links in different orders and have
+    # link lists of different lengths (which joining link is handed back)
+    out.append({"family": "link_directed", "pool": ["DE", "UE", "DE"], "K": 3, "dontdup_only": True})
     return out
 
 
@@ -57,6 +64,7 @@ PROG = '''
 from edgegraph.builder.explicit import link_from_to, link_directed, link_undirected, unlink
 from edgegraph.structure import DirectedEdge, UnDirectedEdge
 from refmodel import spec_new_edge, spec_set_end, spec_unchanged, spec_unlink, joins, index_of
+from refmodel import spec_unlink_from, spec_add_vertex, spec_add_to_link, spec_remove_from_link, first_joining
 
 pre_l = [list(v._links) for v in pool]
 pre_e = [list(l._vertices) for l in plinks]
@@ -77,6 +85,14 @@ try:
         r = link_directed(v, w, dontdup=dd)
     elif kind == "link_undirected":
         r = link_undirected(v, w, dontdup=dd)
+    elif kind == "unlink_from":
+        l.unlink_from(x)
+    elif kind == "add_vertex":
+        l.add_vertex(x)
+    elif kind == "add_to_link":
+        v.add_to_link(l)
+    elif kind == "remove_from_link":
+        v.remove_from_link(l)
     else:
         r = unlink(v, w, destroy=dd)
 except Exception as exc:
@@ -91,6 +107,14 @@ if raised is None:
         ok = spec_set_end(pool, plinks, pre_l, pre_e, l, 0, x)
     elif kind == "set_v2":
         ok = spec_set_end(pool, plinks, pre_l, pre_e, l, 1, x)
+    elif kind == "unlink_from":
+        ok = spec_unlink_from(pool, plinks, pre_l, pre_e, l, x)
+    elif kind == "add_vertex":
+        ok = spec_add_vertex(pool, plinks, pre_l, pre_e, l, x)
+    elif kind == "add_to_link":
+        ok = spec_add_to_link(pool, plinks, pre_l, pre_e, v, l)
+    elif kind == "remove_from_link":
+        ok = spec_remove_from_link(pool, plinks, pre_l, pre_e, v, l)
     elif kind == "unlink":
         ok = spec_unlink(pool, plinks, pre_l, pre_e, v, w, dd, r)
         removed = len(v._links) < len(pre_l[index_of(pool, v)])
@@ -107,8 +131,8 @@ if raised is None:
                 existing = True
             j = j + 1
         if dd and existing:
-            # creates nothing and returns a link joining the pair
-            ok = spec_unchanged(pool, plinks, pre_l, pre_e) and (r in plinks) and joins(r._vertices, v, w)
+            # creates nothing and returns the first link, in v's own link order, that joins the pair
+            ok = spec_unchanged(pool, plinks, pre_l, pre_e) and (r is first_joining(pool, plinks, pre_l, pre_e, v, w))
         else:
             ok = spec_new_edge(pool, plinks, pre_l, pre_e, r, v, w, cls)
 universes_ok = ([list(v._universes) for v in pool] == pre_u) and (list(U._vertices) == pre_m)
@@ -138,17 +162,20 @@ def scenario(B, p):
         env["x"] = B.ref("x", verts, allow_none=True)
         env["y"] = B.ref("y", verts, allow_none=True)
         env["LCLS"] = B.cls(LINK_CLASS_MENU[["DE", "UE", "TE"][B.choice("cls", 3)]])
-    elif fam in ("set_v1", "set_v2"):
+    elif fam in ("set_v1", "set_v2", "unlink_from", "add_vertex"):
         env["l"] = B.ref("l", links)
         env["x"] = B.ref("x", verts, allow_none=True)
+    elif fam in ("add_to_link", "remove_from_link"):
+        env["v"] = B.ref("v", verts)
+        env["l"] = B.ref("l", links)
     else:
         env["v"] = B.ref("v", verts)
         env["w"] = B.ref("w", verts)
-        env["dd"] = B.bool("flag")
+        env["dd"] = True if p.get("dontdup_only") else B.bool("flag")
         if fam == "link_from_to":
             env["LCLS"] = B.cls(LINK_CLASS_MENU[["DE", "UE", "TE"][B.choice("cls", 3)]])
     out = B.run(PROG, env)
-    new = B.adopt(out["r"], "new") if fam not in ("unlink",) else []
+    new = B.adopt(out["r"], "new") if fam not in ["unlink"] + ASSOC else []
     B.observe("raised", out["raised"])
     for k, val in snapshot_assoc(B, verts, links + new, [U]).items():
         B.observe(k, val)
